@@ -315,6 +315,26 @@ def StrictSubclass(cls, base_cls):
     )
 
 
+def _covers(big, small, reverse=False):
+    """Whether each type in small is below (or the same as) some type in big.
+
+    With reverse=True: whether each type in small is above some type in big.
+    """
+    wanted = (Order.MORE, Order.SAME) if reverse else (Order.LESS, Order.SAME)
+    return all(any(typeorder(s, b) in wanted for b in big) for s in small)
+
+
+def _order_from_coverage(less, more):
+    if less and more:
+        return Order.SAME
+    elif less:
+        return Order.LESS
+    elif more:
+        return Order.MORE
+    else:
+        return Order.NONE
+
+
 @parametrized_class_check
 class Union:
     def __init__(self, *types):
@@ -331,6 +351,13 @@ class Union:
     def __type_order__(self, other):
         if other is Union:
             return Order.LESS
+        if isinstance(getattr(other, "_handler", None), type(self)):
+            # Union vs union: A | B is less than C | D if each of A and B is
+            # covered by C or by D. Overlapping unions are not comparable.
+            return _order_from_coverage(
+                _covers(other._handler.types, self.types),
+                _covers(self.types, other._handler.types),
+            )
         classes = self.types
         compare = [
             x for t in classes if (x := typeorder(t, other)) is not Order.NONE
@@ -382,6 +409,13 @@ class Intersection:
     def __type_order__(self, other):
         if other is Intersection:
             return Order.LESS
+        if isinstance(getattr(other, "_handler", None), type(self)):
+            # Intersection vs intersection: A & B is less than C & D if each
+            # of C and D covers A or B.
+            return _order_from_coverage(
+                _covers(self.types, other._handler.types, reverse=True),
+                _covers(other._handler.types, self.types, reverse=True),
+            )
         classes = self.types
         compare = [
             x for t in classes if (x := typeorder(t, other)) is not Order.NONE
